@@ -54,7 +54,7 @@ func collectOcc(s *Snapshot) []occ {
 	var out []occ
 	for gi, g := range s.Goroutines {
 		for ci := range g.Stack.Calls {
-			g.Stack.Calls[ci].Args.walk(func(a *Arg) {
+			walkArgs(&g.Stack.Calls[ci].Args, func(a *Arg) {
 				out = append(out, occ{a.Value, a.Name, a.IsPtr, gi == 0})
 			})
 		}
